@@ -310,6 +310,12 @@ def crash_frame(stderr):
                     continue
                 if f.startswith(("panic(", "runtime.", "runtime/", "sync/atomic.", "internal/", "created by")):
                     continue
+                # a closure of a generic library function carries the package name of its caller; its file says where it is
+                j = lines.index(f, i + 1)
+                src = lines[j + 1].strip() if j + 1 < len(lines) else ""
+                m = re.search(r"/golib/([a-z0-9]+)/[^/ ]+\.go:\d+", src)
+                if m and "verifshim" not in src and "verif_export" not in src and not f.startswith("github.com/welllog/golib/"):
+                    return "github.com/welllog/golib/%s (closure instantiated in %s)" % (m.group(1), f.split("(")[0])
                 return f
             break
     return None
